@@ -385,17 +385,50 @@ class DecimalFieldFormat(AbstractFieldFormat):
     def __init__(self, field_name, is_allowed_to_be_empty, length_text, rule, data_format, empty_value=None):
         super().__init__(field_name, is_allowed_to_be_empty, length_text, "", data_format, empty_value)
         assert rule is not None, 'to specify "no rule" use "" instead of None'
-        if data_format.format in (data.FORMAT_DELIMITED, data.FORMAT_FIXED):
-            self.decimal_separator = data_format.decimal_separator
-            self.thousands_separator = data_format.thousands_separator
-        else:
-            # Spreadsheet formats have no separator properties; numbers show up as plain decimal text.
-            self.decimal_separator = "."
-            self.thousands_separator = ""
+        self._explicit_decimal_separator = None
+        self._explicit_thousands_separator = None
         self.valid_range = ranges.DecimalRange(rule, ranges.DEFAULT_DECIMAL_RANGE_TEXT)
 
         self._precision = self.valid_range.precision
         self._scale = self.valid_range.scale
+
+    @property
+    def decimal_separator(self):
+        """
+        The decimal separator of the data format as it is now (a data format
+        row of the CID can follow the row that declares the field) unless it
+        has been set explicitly.
+        """
+        if self._explicit_decimal_separator is not None:
+            result = self._explicit_decimal_separator
+        elif self.data_format.format in (data.FORMAT_DELIMITED, data.FORMAT_FIXED):
+            result = self.data_format.decimal_separator
+        else:
+            # Spreadsheet formats have no separator properties; numbers show up as plain decimal text.
+            result = "."
+        return result
+
+    @decimal_separator.setter
+    def decimal_separator(self, value):
+        self._explicit_decimal_separator = value
+
+    @property
+    def thousands_separator(self):
+        """
+        The thousands separator of the data format as it is now unless it has
+        been set explicitly.
+        """
+        if self._explicit_thousands_separator is not None:
+            result = self._explicit_thousands_separator
+        elif self.data_format.format in (data.FORMAT_DELIMITED, data.FORMAT_FIXED):
+            result = self.data_format.thousands_separator
+        else:
+            result = ""
+        return result
+
+    @thousands_separator.setter
+    def thousands_separator(self, value):
+        self._explicit_thousands_separator = value
 
     def sql_ansi_type(self):
         return ("decimal", self._scale, self._precision)
